@@ -32,7 +32,7 @@ META = ".+()[]{}|^$-,'#~_%"
 
 
 def examples(tier):
-    return 420 if tier == "quick" else 6000
+    return 2100 if tier == "quick" else 28000
 
 
 _name = st.text(alphabet=st.sampled_from(ALPHA + ALPHA + ALPHA + RARE), min_size=1, max_size=7)
